@@ -1,4 +1,5 @@
 #!/bin/bash
+HERE=$(cd "$(dirname "$0")" && pwd)
 # usage: try_patch.sh [-R] <patch> <prop> [<prop>...]   -- applies the patch to /repo, runs the quick checks, undoes it.
 REV=""
 if [ "$1" = "-R" ]; then REV="-R"; shift; fi
@@ -7,7 +8,7 @@ cd /repo || exit 2
 if ! git diff --quiet; then echo "repo dirty, refusing"; exit 2; fi
 git apply $REV "$PATCH" || { echo "patch does not apply"; exit 2; }
 for p in "$@"; do
-  out=$(/verif/check "$p" quick 2>/dev/null); rc=$?
+  out=$("$HERE/../check" "$p" quick 2>/dev/null); rc=$?
   nv=$(echo "$out" | grep -c '^VIOLATION')
   echo "== $p rc=$rc violations=$nv"
   echo "$out" | grep -A1 '^VIOLATION' | head -6
